@@ -275,8 +275,9 @@ def splitList (b : Bytes) : Option (Bytes × Bytes) :=
 def csOfList (l : List Node) : Nat → Node := fun i => l.getD i .nil
 
 mutual
-/-- `decodeNodeUnsafe`; the fuel bounds the nesting of embedded nodes (`buf.length + 1` suffices:
-an embedded node is decoded from the payload of its parent) -/
+/-- `decodeNodeUnsafe`; the fuel bounds the nesting of embedded nodes and the 16-step child loop
+(`2 * buf.length` suffices, proved in `KV/Proofs/TrieProofDec.lean`: an embedded node is decoded
+from the payload of its parent) -/
 def decodeNode : Nat → Bytes → Option Node
   | 0, _ => none
   | fuel + 1, buf =>
@@ -365,7 +366,7 @@ def verifyLoop (H : Bytes → Bytes) (proof : List Bytes) : Nat → Bytes → Ke
     match lookup H proof want with
     | none => .err
     | some buf =>
-      match decodeNode (buf.length + 1) buf with
+      match decodeNode (2 * buf.length + 2) buf with
       | none => .err
       | some n =>
         match pget n key with
